@@ -311,14 +311,20 @@ def run(ctx):
     mb = mq.methods["build_xml"]
     lits = {n.value for n in ast.walk(mb.node) if isinstance(n, ast.Constant) and isinstance(n.value, str)}
     r1.check("jr:itext(itextId)" in lits, "itemset label ref", "itemset labels resolve through the item's itextId child", mb.loc())
-    gs = scls.methods["_generate_static_instances"]
-    cn = repo.find_func("pyxform.survey:Survey._generate_static_instances.choice_nodes")
-    iid = [c for c in walk_own(cn.node) if isinstance(c, ast.Call) and call_name(c) == "node" and c.args and const_str(ctx, cn.module, c.args[0]) == (True, "itextId")]
-    r1.check(len(iid) == 1 and guard_texts(iid[0], stop=cn.node) == ["itemset.requires_itext"], "itextId guard", "itextId is emitted exactly when the list requires itext (the atom that guards registration)", cn.loc())
-    st = scls.methods["_setup_translations"]
-    gc = repo.find_func("pyxform.survey:Survey._setup_translations.get_choices")
-    r1.check(gc is not None and any(isinstance(x, ast.If) and norm(x.test) == "itemset.requires_itext" for x in walk_own(gc.node)), "registration guard",
-             "choice texts are registered under the same requires_itext atom", st.loc())
+    # the same atom (`requires_itext`) guards emission and registration: evaluated with the atom false, neither the
+    # itextId children nor any registered text id may appear (with the atom true both did, above)
+    opts0 = tuple(_mk(ctx, ocls, f"o{i}", label=f"L{i}", media=None) for i in range(3))
+    itemset0 = Obj(icls, {"name": "lst", "options": opts0, "requires_itext": False, "used_by_search": False}, name="itemset")
+    it.reset([])
+    so0 = survey_obj([], choices={"lst": itemset0})
+    info0 = it.call_function(scls.methods["_generate_static_instances"], [so0], {"list_name": "lst", "itemset": itemset0}, None, None)
+    inst0 = info0.get("instance") if isinstance(info0, dict) else None
+    tags0 = [[ch.tag for ch in item.children if isinstance(ch, NodeVal)] for item in inst0.children[0].children] if isinstance(inst0, NodeVal) and inst0.children else None
+    r1.check(tags0 is not None and len(tags0) == 3 and all("itextId" not in t and "label" in t for t in tags0), "itextId guard",
+             "without requires_itext the items carry an inline label and no itextId (emission follows the atom that guards registration)",
+             scls.methods["_generate_static_instances"].loc(), why_fail=f"{tags0}")
+    ids0, _tr0 = registered(so0, {"data": "/data"})
+    r1.check(not ids0, "registration guard", "choice texts are registered only under the same requires_itext atom", scls.methods["_setup_translations"].loc(), why_fail=f"{sorted(ids0)}")
     rules.append(r1)
 
     # ------------------------------------------------------------------ R6 traversal coverage
